@@ -295,8 +295,11 @@ def kani_replay(scratch, harness, workdir_out):
     rc2, out2, _ = run(cmd2, cwd=scratch, timeout=1800, env=env2)
     open(target_file, 'w').write(text)
     reproduced = ('test result: FAILED' in out2 or 'panicked at' in out2) and tname in out2
-    return dict(reproduced=reproduced, test=chosen, values=values, log=out2[-4000:], test_name=tname,
-                why=None if reproduced else 'native playback did not fail')
+    passed = bool(re.search(r'test result: ok\. 1 passed', out2))
+    errs = '\n'.join(m.group(0) for m in re.finditer(r'^error(?:\[E\d+\])?:.*(?:\n.*){0,7}', out2, flags=re.M))
+    why = None if reproduced else ('native playback did not fail' if passed else 'native playback could not be built or run')
+    return dict(reproduced=reproduced, test=chosen, values=values, log=(errs[:3000] + '\n...\n' + out2[-3000:]), test_name=tname,
+                why=why)
 
 
 # ------------------------------------------------------------------------------------------------
